@@ -28,6 +28,23 @@ prop(
 )
 
 NOT_BUILT = "not claimed yet: the contracts for this property are not finished in the committed framework (DESIGN.md 10 gives the build order); no check, no evidence"
+
+prop(
+    "C19",
+    ["contracts.c19_mapping"],
+    "other",
+    "contract-based deductive verification of the inductive step of a structural induction over configuration trees: translate_hierarchy is proved per node shape (mappings by key set, lists by length, width <= 3; children are arbitrary symbolic subtrees, so depth is unbounded) against its own interface contract assumed at the recursive call sites; construct and load_name are proved against an abstract import system; whole trees of larger width by a BOUNDED stand-in",
+    "proved per node: every child translated exactly once (mappings in key order at where.key, lists last-to-first at where[index]), plain data unchanged, a __type__ mapping constructed exactly once after all its children from the translated items + extra keywords, __args__ positional / rest keyword, name resolution through import or the attribute chain, a child's located error propagates unchanged (innermost location), an unlocated or foreign error gets exactly this node's location; bounded: whole random trees against an independent evaluator",
+    "trusted: pyvc's Python semantics; the assumed contract of the import system (__import__, sys.modules, getattr); factories are arbitrary callables that never raise a LOCATED ConfigurationError (hypothesis stated in DESIGN.md C19); width > 3 only by the bounded stand-in",
+    trusted=["assumed: __import__(name) either makes sys.modules[name] exist or raises ImportError; getattr either raises AttributeError or returns attr_of(object, name)",
+             "hypothesis: an exception raised by a factory is not a ConfigurationError that already carries a location (the code cannot tell it from a child's located error)",
+             "NOT proved: the comprehension loops for node widths > 3 (unrolled per shape, widths 0..3 proved); covered only by the bounded stand-in",
+             "BOUNDED (not proved): whole trees of depth <= 4 and width <= 5 against an independent recursive evaluator, see coverage.bounded"],
+    explanation="inductive step per node shape proved by VCs; whole trees bounded",
+    design_ref="5/C19",
+    bounded="bounded.c19_trees",
+)
+
 NOT_APPLICABLE = {pid: NOT_BUILT for pid in ["C%02d" % i for i in range(1, 20)]}
 NOT_APPLICABLE["C13"] = (
     "process-level property (exit status of python -m cobald.daemon, SIGINT delivery, log output, and 'keeps all of them alive' = garbage-collector "
